@@ -210,6 +210,9 @@ func c07Case(ctx *genCtx, ts *tape.Set, dir string) *genResult {
 	if pt.Intn(3) > 0 {
 		prof.Nested = true
 	}
+	if os.Getenv("VERIF_C07_NOEXT") != "" {
+		prof.Ext, prof.Q = false, false // development aid: measure what module-local imports cost
+	}
 	w := world.Generate(ts.Fork("world"), prof)
 	plan := drawPlan(ts.Fork("plan"))
 	plan.PkgOrder = 0
@@ -489,7 +492,13 @@ func c07Case(ctx *genCtx, ts *tape.Set, dir string) *genResult {
 	// thorough tier enumerates all of them for every history)
 	st := ts.Fork("sweep")
 	cut := false
+	// quick tier: every other history goes without recovery points at all, so that the batch reaches
+	// more histories (the edit / rerun clauses need histories, the recovery clauses need points)
+	sweepThis := thorough || st.Intn(2) == 0
 	keep := func(always bool) bool {
+		if !sweepThis {
+			return false
+		}
 		if !ctx.deadline.IsZero() && time.Now().After(ctx.deadline) {
 			cut = true
 			return false // the batch's wall-clock budget is used up: finish this history without further recovery points
